@@ -219,6 +219,8 @@ func c15FileShape(s *c15Spec) string {
 	switch {
 	case s.File == nil || s.FileStyle == "":
 		return ""
+	case strings.Contains(s.FileStyle, "longline"):
+		return ":file-with-line-over-64KiB"
 	case !strings.Contains(s.FileStyle, "pad=none"):
 		return ":file-with-padded-lines"
 	case !strings.Contains(s.FileStyle, "eol=lf"):
@@ -741,6 +743,9 @@ func c15CountFileStyle(w *fw.W, s *c15Spec) {
 	if strings.Contains(s.FileStyle, "final=none") {
 		w.Count("files_without_final_newline", 1)
 	}
+	if strings.Contains(s.FileStyle, "longline") {
+		w.Count("files_with_line_over_64KiB", 1)
+	}
 }
 
 func c15Required() []string {
@@ -749,7 +754,7 @@ func c15Required() []string {
 		out = append(out, "op."+op+".true", "op."+op+".false", "op."+op+".e2e")
 	}
 	return append(out, "capture_checks", "captures_seen", "negation_pairs", "negated_deny_rules", "instances_with_both_outcomes",
-		"files_with_padded_lines", "files_with_every_line_padded", "files_with_crlf", "files_without_final_newline", "e2e_dataset_blocks_with_styled_lines",
+		"files_with_padded_lines", "files_with_every_line_padded", "files_with_crlf", "files_without_final_newline", "files_with_line_over_64KiB", "e2e_dataset_blocks_with_styled_lines",
 		"pm_inputs_at_the_shortest_phrase_boundary", "pm_inputs_unicode_folded_phrase", "pm_padded_file_matches_as_short_as_the_shortest_phrase",
 		"rx_prefilter_on_evaluations", "rx_prefilter_off_evaluations", "rx_decided_by_exact_literal_path", "rx_exact_literal_path_matches", "rx_rejected_before_the_regexp",
 		"rx_matches_only_under_unicode_folding", "rx_matches_only_under_unicode_folding_prefilter_on")
